@@ -1,8 +1,8 @@
 (** C03 - no silent conflation (statements only; proofs in Proofs/). *)
-From Coq Require Import List NArith String Bool.
+From Coq Require Import List NArith String Bool Sorted.
 From V Require Import Base.Strings Base.Result Model.Registry Model.Settings Model.Subst
-  Model.TypePath Model.Derives Model.Generate Model.Equal Model.Shape Proofs.GenProofs
-  Proofs.FidelityBase Proofs.Fidelity Proofs.FidelityGen Proofs.KeepFirst.
+  Model.TypePath Model.Derives Model.Generate Model.Equal Model.Shape Model.DedupSpec Model.EqualPlain Model.WellFormed Proofs.GenProofs
+  Proofs.FidelityBase Proofs.Fidelity Proofs.FidelityGen Proofs.KeepFirst Proofs.DedupGroups Proofs.EqualSound.
 Import ListNotations.
 
 (** structure of the loop, any registry, any comparison function: when nothing else fails
@@ -69,3 +69,159 @@ Theorem C03_member_represented :
         forall n, item_shape m s n ir0 params = shape_reg r s (S n) id.
 Proof. exact member_represented. Qed.
 Print Assumptions C03_member_represented.
+
+(** the groups map [m] of [ensure_unique_type_paths] (utils.rs:43-70), for ANY registry on which
+    the grouping loop succeeds.  [entry_at r i p]: the entry at position [i] has path [p];
+    [all_members m]: every index listed anywhere in [m]; [group_first g = g[0]].
+    - the path keys are distinct, every path has a group and no group is empty;
+    - (i) every position with a namespaced path is listed exactly once in the whole map
+      ([NoDup] of the flattening), under its own path; positions without namespace nowhere;
+    - (ii) every member of a group other than the first is [Ok true] against the first;
+    - (iii) every member of a group (in particular the member that started it) is [Ok false]
+      against the first member of every EARLIER group of its path;
+    - (iv) members are in increasing index order, the groups of a path in order of their first
+      members, and the paths in order of first appearance. *)
+Theorem C03_dedup_groups :
+  forall r m, build_groups r = Ok m ->
+    NoDup (map fst m) /\
+    (forall p gs, In (p, gs) m -> gs <> [] /\ Forall (fun g => g <> []) gs) /\
+    NoDup (all_members m) /\
+    (forall i, In i (all_members m) <-> exists p, entry_at r i p /\ namespace p <> []) /\
+    (forall p gs g i, In (p, gs) m -> In g gs -> In i g -> entry_at r i p) /\
+    (forall p gs g i, In (p, gs) m -> In g gs -> In i (tl g) ->
+                      types_equal_res r i (group_first g) = Ok true) /\
+    (forall p gs gs1 g gs2 g0 i, In (p, gs) m -> gs = gs1 ++ g :: gs2 -> In g0 gs1 -> In i g ->
+                                 types_equal_res r i (group_first g0) = Ok false) /\
+    (forall p gs, In (p, gs) m ->
+                  Forall (StronglySorted N.lt) gs /\ StronglySorted N.lt (map group_first gs)) /\
+    StronglySorted N.lt (map entry_first m).
+Proof. exact dedup_groups. Qed.
+Print Assumptions C03_dedup_groups.
+
+(** existence half of (i), directly: a namespaced position is a member of a group of its path *)
+Theorem C03_dedup_member :
+  forall r m i p, build_groups r = Ok m -> entry_at r i p -> namespace p <> [] ->
+    exists gs g, In (p, gs) m /\ In g gs /\ In i g.
+Proof. exact dedup_member. Qed.
+Print Assumptions C03_dedup_member.
+
+(** *** soundness of [types_equal], partial.
+
+    FULL statement (refuted below): [types_equal_res r a b = Ok true] implies that [a] and [b]
+    denote the same type: equal registry shapes at every depth and, for generic definitions,
+    equal skeletons.
+
+    PROVED: the class where the algorithm is plain structural recursion.  [types_equal_plain]
+    (Model/EqualPlain.v) is [types_equal] without the [GenericsList] and with the two
+    visited-set shortcuts replaced by a marker outcome: it answers [Ok v] exactly when, during
+    the comparison, neither side reaches an id a second time and no type met has a non-skipped
+    type parameter (otherwise [Panic "revisit"] / [Panic "type parameter in scope"]); this is
+    decidable by running it (two versions of a non-generic crate, assoc-type variants with
+    skipped parameters).  On that class it agrees with [types_equal] and [true] implies equal
+    registry shapes at every depth, for every settings value, up to [shape_core]: the Box flag
+    of a field (read off the recorded type name) is forgotten -- [types_equal] does not compare
+    recorded type names there (C03_equal_sound_refuted_boxed: the conclusion cannot be
+    strengthened to full shape equality even inside the class); field names, variant names
+    and indices, primitive kinds, array lengths, tuple arities and the nesting are all equal.
+    MISSING for the full statement: generics in scope, shared or recursive ids -- exactly
+    where the refutations live -- and the skeleton half of the conclusion. *)
+Theorem C03_equal_plain_agrees :
+  forall r a b v, types_equal_plain r a b = Ok v -> types_equal_res r a b = Ok v.
+Proof. exact types_equal_plain_agrees. Qed.
+Print Assumptions C03_equal_plain_agrees.
+
+Theorem C03_equal_sound_partial :
+  forall r a b,
+    types_equal_plain r a b = Ok true ->
+    forall s n, shape_core (shape_reg r s n a) = shape_core (shape_reg r s n b).
+Proof. exact types_equal_plain_sound. Qed.
+Print Assumptions C03_equal_sound_partial.
+
+(** the same with the verdict of [types_equal] itself as hypothesis *)
+Theorem C03_equal_sound_on_plain_class_partial :
+  forall r a b,
+    (exists v, types_equal_plain r a b = Ok v) -> types_equal_res r a b = Ok true ->
+    forall s n, shape_core (shape_reg r s n a) = shape_core (shape_reg r s n b).
+Proof. exact types_equal_sound_partial. Qed.
+Print Assumptions C03_equal_sound_on_plain_class_partial.
+
+(** the class stated declaratively (Model/EqualPlain.v): [unfold_ids r fuel a] lists, with
+    repetitions, the ids met when [a] is unfolded along fields, element types, tuple members,
+    compact inner types and bit-sequence store / order; [tree_like r a] = that list (at the fuel
+    of the comparison) has no repetition: no id is reached twice; [no_params_reachable r a] =
+    no type in it has a non-skipped type parameter.  On a closed registry these hypotheses put
+    the pair into the plain class: [types_equal_plain] answers, with the verdict of
+    [types_equal] ... *)
+Theorem C03_plain_class_declarative :
+  forall r a b,
+    closed r -> in_reg r a -> in_reg r b ->
+    tree_like r a -> tree_like r b -> no_params_reachable r a -> no_params_reachable r b ->
+    exists v, types_equal_plain r a b = Ok v /\ types_equal_res r a b = Ok v.
+Proof. exact plain_class_declarative. Qed.
+Print Assumptions C03_plain_class_declarative.
+
+(** ... hence soundness in declarative form *)
+Theorem C03_equal_sound_declarative_partial :
+  forall r a b,
+    closed r -> in_reg r a -> in_reg r b ->
+    tree_like r a -> tree_like r b -> no_params_reachable r a -> no_params_reachable r b ->
+    types_equal_res r a b = Ok true ->
+    forall s n, shape_core (shape_reg r s n a) = shape_core (shape_reg r s n b).
+Proof. exact types_equal_sound_declarative. Qed.
+Print Assumptions C03_equal_sound_declarative_partial.
+
+(** outside the markers the two algorithms have the same outcome, errors and panics included *)
+Theorem C03_equal_plain_same_outcome :
+  forall r a b,
+    types_equal_plain r a b <> Panic "revisit" ->
+    types_equal_plain r a b <> Panic "type parameter in scope" ->
+    types_equal_res r a b = types_equal_plain r a b.
+Proof. exact types_equal_plain_same. Qed.
+Print Assumptions C03_equal_plain_same_outcome.
+
+(** refutations of the unrestricted statement on the faithful model (findings F1, F3, F3b);
+    witnesses: corpus/families/F03_same_id_coincidence.json, F14_nested_generic_explains.json
+    (transcribed in Model/EqualPlain.v) and a hand-made registry without any generics.
+    - same-id shortcut under different parameter bindings: Header<u8, u16> and Header<u8, i64>
+      share their field ids; the registry shapes coincide, the generic definitions recovered
+      from the two (skeletons) do not (U is used by the first, unused by the second); *)
+Theorem C03_equal_sound_refuted_same_id :
+  exists r s a b ta tb,
+    resolve r a = Some ta /\ resolve r b = Some tb /\
+    types_equal_res r a b = Ok true /\
+    shape_reg r s 4 a = shape_reg r s 4 b /\
+    skeleton r s ta <> skeleton r s tb.
+Proof. exact equal_sound_refuted_same_id. Qed.
+Print Assumptions C03_equal_sound_refuted_same_id.
+
+(** - a difference inside a nested generic type (Option<i32> against Option<u8>) is "explained"
+      by that type's own parameter: the depth-3 shapes differ; *)
+Theorem C03_equal_sound_refuted_nested_generic :
+  exists r s a b,
+    types_equal_res r a b = Ok true /\
+    shape_core (shape_reg r s 3 a) <> shape_core (shape_reg r s 3 b).
+Proof. exact equal_sound_refuted_nested_generic. Qed.
+Print Assumptions C03_equal_sound_refuted_nested_generic.
+
+(** - both-visited shortcut, no type parameter anywhere in the registry:
+      Foo { x: X, y: Y, z: X } against Foo { x: X', y: Y', z: Y' }. *)
+Theorem C03_equal_sound_refuted_revisit :
+  exists r s a b,
+    (forall e, In e r -> param_ids (snd e) = []) /\
+    types_equal_res r a b = Ok true /\
+    shape_core (shape_reg r s 3 a) <> shape_core (shape_reg r s 3 b).
+Proof. exact equal_sound_refuted_revisit. Qed.
+Print Assumptions C03_equal_sound_refuted_revisit.
+
+(** why the conclusion of C03_equal_sound_partial is up to [shape_core]: INSIDE the plain class
+    recorded type names are never compared (S { x: Box<u8> } against S { x: u8 }: same on the
+    wire, different Rust type).  Variant indices ARE part of [shape_core]: finding F19 (the
+    comparison ignored them; found by this proof, confirmed on the implementation and repaired
+    in /repo and in the model) has the regression witness [variant_index_compared] in
+    Proofs/EqualSound.v. *)
+Theorem C03_equal_sound_refuted_boxed :
+  exists r s a b,
+    types_equal_plain r a b = Ok true /\ types_equal_res r a b = Ok true /\
+    shape_reg r s 2 a <> shape_reg r s 2 b.
+Proof. exact equal_sound_refuted_boxed. Qed.
+Print Assumptions C03_equal_sound_refuted_boxed.
